@@ -246,6 +246,7 @@ func init() {
 		Runs: []RunDef{
 			{Fn: "H_two", Tier: "quickonly", Sched: true, Preempt: 2, Reach: []string{"end"}},
 			{Fn: "H_two_fold", Tier: "quick", Sched: true, Preempt: 2, Reach: []string{"end"}},
+			{Fn: "H_two_temp", Tier: "quick", Sched: true, Preempt: 2, Reach: []string{"end"}},
 			{Fn: "H_two_autoload", Fuel: 60_000_000, Tier: "quick", Sched: true, Preempt: 1, Reach: []string{"end"}, NativeTwin: "N_autoload_same_file"},
 			{Fn: "H_two", Tier: "thorough", Sched: true, Preempt: 4, Reach: []string{"end"}},
 		},
